@@ -180,7 +180,7 @@ func (d *c11DS) NotFound(err error) bool { _, ok := err.(c11NotFound); return ok
 // commit times; Compute must agree and must not crash.
 //
 //@ func oracleC11Compute
-//@   props C11
+//@   props C11 C12
 //@   oracle
 //@   covers core.Compute
 //@   covers core.nextVersionIndex
@@ -315,7 +315,12 @@ func oracleC11Compute(childHours [][]int, childVis [][]bool, parentHours []int, 
 		have := map[upd]int{}
 		for k, u := range got[i] {
 			have[upd{u.Index, u.Version}]++
-			vAssert(k == 0 || got[i][k-1].Index <= u.Index)
+			if k > 0 {
+				// C12's order: by index, within an index by time, then by child version
+				a := got[i][k-1]
+				vAssert(a.Index < u.Index || (a.Index == u.Index && (a.Timestamp.Before(u.Timestamp) ||
+					(a.Timestamp.Equal(u.Timestamp) && a.Version <= u.Version))))
+			}
 		}
 		vAssert(len(have) == len(want[i]))
 		for k, n := range want[i] {
